@@ -364,6 +364,8 @@ func rulesC10(cx *Ctx) []Obligation {
 	}
 	// ToVec: chunks of w ≤ 63 bits of the canonical decomposition, consecutive and disjoint
 	obs = append(obs, ruleToVecChunks(cx)...)
+	// the sponge walks its whole input: chunk and limb windows tile [0, len(input))
+	obs = append(obs, ruleAbsorbTiling(cx, "C10/sponge/absorb-tiling", "poseidon", "(*BN254Chip).HashNoPad")...)
 	return obs
 }
 
